@@ -173,6 +173,9 @@ mut('c05-pull-drops-first', 'C05', 'src/pull.rs', "                Some((_peer_i
 mut('c05-dealer-swallows-after-command', 'C05', 'src/dealer.rs', "                Some((_peer_id, Ok(_))) => {", "                Some((_peer_id, Ok(_))) => {\n                    let _ = self.fair_queue.next().await;", note='DEALER consumes one more item after a command and throws it away')
 mut('c05-router-drops-frame', 'C05', 'src/router.rs', "                    message.push_front(peer_id.into());\n                    return Ok(message);", "                    let _ = message.pop_front();\n                    message.push_front(peer_id.into());\n                    return Ok(message);", note='ROUTER replaces the first frame by the identity: message not whole')
 mut('c05-decode-merges', 'C05', 'src/codec/zmq_codec.rs', "                        Some(v) => v.push_back(data.freeze()),", "                        Some(v) => *v = ZmqMessage::from(data.freeze()),", note='earlier frames of a multipart message are dropped (split message)')
+mut('c05-wake-dropped-while-checked-out', 'C05', 'src/fair_queue.rs', "    K: Clone + Send + Sync,\n{\n    fn wake_by_ref(arc_self: &Arc<Self>) {\n        let mut inner = arc_self.inner.lock();\n", "    K: Clone + Eq + Hash + Send + Sync,\n{\n    fn wake_by_ref(arc_self: &Arc<Self>) {\n        let mut inner = arc_self.inner.lock();\n        if !inner.streams.contains_key(&arc_self.event.key) {\n            return;\n        }\n", note='seeded C05-A: a wake-up is ignored while the stream is checked out of the map (impl header changes too: tolerant anchor)')
+mut('c05-decode-eof-override', 'C05', 'src/codec/zmq_codec.rs', "impl Encoder for ZmqCodec {", "impl ZmqCodec {\n    fn partial(&mut self) -> Option<Message> { self.buffered_message.take().map(Message::Message) }\n}\n\nimpl Encoder for ZmqCodec {", expect='no-alarm', note='HARMLESS: an unused private helper next to the trait impls')
+mut('c05-decode-eof-surfaces-partial', 'C05', 'src/codec/zmq_codec.rs', "    type Item = Message;\n\n    fn decode(", "    type Item = Message;\n\n    fn decode_eof(&mut self, src: &mut BytesMut) -> Result<Option<Self::Item>, Self::Error> {\n        match self.decode(src)? {\n            Some(m) => Ok(Some(m)),\n            None => { src.clear(); Ok(self.buffered_message.take().map(Message::Message)) }\n        }\n    }\n\n    fn decode(", expect='any-nonzero', note='seeded C05-D: a decode_eof override surfaces a message cut short by a disconnect; the contracts assume the trait default -> undecided (closed-impl guard), never exit 0')
 mut('h-c05-fq-rename', 'C05', 'src/fair_queue.rs', 'io_stream', 'checked_out', expect='no-alarm', note='HARMLESS rename')
 mut('h-c05-pull-rename', 'C05', 'src/pull.rs', "Some((_peer_id, Ok(Message::Message(message)))) => {\n                    return Ok(message);", "Some((_from, Ok(Message::Message(whole)))) => {\n                    return Ok(whole);", expect='no-alarm', note='HARMLESS rename')
 mut('c16-dealer-not-forgotten', 'C16', 'src/dealer.rs', "                    self.backend.peer_disconnected(&peer_id);\n", "", note='F9 returns: DEALER reports a failed peer without forgetting it')
@@ -184,6 +187,7 @@ mut('c16-xpub-wrong-peer', 'C16', 'src/xpub.rs', "        self.fair_queue_inner.
 mut('c16-sub-forgets-everyone', 'C16', 'src/sub.rs', "        self.peers.remove_sync(peer_id);\n        // Also drop", "        self.peers.clear_sync();\n        // Also drop", note='one failed peer makes SUB forget every peer (isolation)')
 mut('c16-req-not-forgotten', 'C16', 'src/req.rs', "                            drop(peer);\n                            self.backend.peer_disconnected(&peer_id);\n                            Err(error.into())", "                            Err(error.into())", note='F12 returns (error arm): REQ keeps a peer whose read failed')
 mut('c16-req-eof-not-forgotten', 'C16', 'src/req.rs', "                            drop(peer);\n                            self.backend.peer_disconnected(&peer_id);\n                            Err(ZmqError::NoMessage)", "                            Err(ZmqError::NoMessage)", note='F12 returns (end-of-stream arm)')
+mut('c16-req-requeues-dead', 'C16', 'src/req.rs', "            if let Some(mut peer) = self.backend.peers.get_async(&next_peer_id).await {\n                self.backend.round_robin.push(next_peer_id.clone());\n", "            self.backend.round_robin.push(next_peer_id.clone());\n            if let Some(mut peer) = self.backend.peers.get_async(&next_peer_id).await {\n", note='seeded C16-J: identities of forgotten peers stay in the rotation; a send with no live peer left spins for ever')
 mut('h-c16-rename', 'C16', 'src/dealer.rs', "Some((peer_id, Err(e)))", "Some((failed_peer, Err(e)))", expect='no-alarm', more=[("self.backend.peer_disconnected(&peer_id);", "self.backend.peer_disconnected(&failed_peer);")], note='HARMLESS rename')
 mut('h-req-closure', 'C07', 'src/req.rs', "        if self.current_request.is_some() {", "        if self.current_request.as_ref().map(|p| true).unwrap_or(false) {", expect='no-alarm', note='HARMLESS but through an un-annotated closure: Verus forgets the result, so the failed obligations must be reported as undecided (shape guard), never as a violation')
 mut('h-rr-extra-loop', 'C10', 'src/backend.rs', "        // In normal scenario this will always be only 1 iteration", "        let mut spins = 0u8;\n        while spins < 3 {\n            spins += 1;\n        }\n        // In normal scenario this will always be only 1 iteration", expect='no-alarm', note='HARMLESS extra loop the contracts carry no invariant for: undecided at worst')
